@@ -205,49 +205,58 @@ Proof.
   rewrite host_bucket_app by exact Hd. apply split_path_rewrite.
 Qed.
 
-(* what a match means *)
+(* what a match means: the host is "<b>.<trimmed configured base>" with b a non-empty dot-free label *)
 Theorem match_bucket_sound bases host b :
   match_bucket bases host = Some b ->
-  exists base, In base bases /\ host = b ++ dotc :: trim dotc base /\ ~ In dotc b.
+  exists base, In base bases /\ host = b ++ dotc :: trim dotc base /\ ~ In dotc b /\ b <> [].
 Proof.
   induction bases as [|base0 bases IH]; cbn [match_bucket]; intros H.
   - discriminate.
   - assert (Hrec : match_bucket bases host = Some b ->
                    exists base, In base (base0 :: bases) /\
-                                host = b ++ dotc :: trim dotc base /\ ~ In dotc b).
+                                host = b ++ dotc :: trim dotc base /\ ~ In dotc b /\ b <> []).
     { intros H'. destruct (IH H') as [base [Hin Hrest]].
       exists base. split; [right; exact Hin | exact Hrest]. }
     destruct (strip_suffix (dotc :: trim dotc base0) host) as [b'|] eqn:Es.
     + destruct (mem_byte dotc b') eqn:Em.
       * exact (Hrec H).
-      * injection H as H. subst b'.
-        exists base0. split; [left; reflexivity|]. split.
-        -- apply strip_suffix_inv. exact Es.
-        -- apply mem_byte_false. exact Em.
+      * destruct b' as [|c b'].
+        -- exact (Hrec H).
+        -- injection H as H. subst b.
+           exists base0. split; [left; reflexivity|]. split; [|split].
+           ++ apply strip_suffix_inv. exact Es.
+           ++ apply mem_byte_false. exact Em.
+           ++ discriminate.
     + exact (Hrec H).
 Qed.
 
-(* completeness: a host "<dot-free b>.<trimmed configured base>" matches with bucket b *)
+(* completeness: a host "<non-empty dot-free b>.<trimmed configured base>" matches with bucket b *)
 Lemma match_bucket_complete bases base bucket :
-  ~ In dotc bucket -> In base bases ->
+  ~ In dotc bucket -> bucket <> [] -> In base bases ->
   match_bucket bases (bucket ++ dotc :: trim dotc base) = Some bucket.
 Proof.
-  intros Hd. induction bases as [|base0 bases IH]; intros Hin.
+  intros Hd Hne. induction bases as [|base0 bases IH]; intros Hin.
   - destruct Hin.
   - cbn [match_bucket]. destruct Hin as [Heq | Hin].
     + subst base0. rewrite strip_suffix_app.
-      apply mem_byte_false in Hd. rewrite Hd. reflexivity.
+      apply mem_byte_false in Hd. rewrite Hd.
+      destruct bucket as [|c bucket]; [contradiction | reflexivity].
     + destruct (strip_suffix (dotc :: trim dotc base0) (bucket ++ dotc :: trim dotc base))
         as [b'|] eqn:Es.
       * destruct (mem_byte dotc b') eqn:Em.
         -- exact (IH Hin).
         -- apply strip_suffix_inv in Es. apply mem_byte_false in Em.
-           f_equal. exact (cut_unique dotc b' bucket _ _ (eq_sym Es) Em Hd).
+           assert (Eb : b' = bucket)
+             by exact (cut_unique dotc b' bucket _ _ (eq_sym Es) Em Hd).
+           rewrite Eb.
+           destruct bucket as [|c bucket]; [contradiction | reflexivity].
       * exact (IH Hin).
 Qed.
 
+(* no match: every way of reading the host as "<b>.<trimmed configured base>" leaves a b that
+   has a '.' or is empty *)
 Lemma match_bucket_none bases host :
-  (forall base b, In base bases -> host = b ++ dotc :: trim dotc base -> In dotc b) ->
+  (forall base b, In base bases -> host = b ++ dotc :: trim dotc base -> In dotc b \/ b = []) ->
   match_bucket bases host = None.
 Proof.
   induction bases as [|base0 bases IH]; intros H; cbn [match_bucket].
@@ -256,9 +265,57 @@ Proof.
     { apply IH. intros base b Hin Hh. apply (H base b); [right; exact Hin | exact Hh]. }
     destruct (strip_suffix (dotc :: trim dotc base0) host) as [b'|] eqn:Es.
     + apply strip_suffix_inv in Es.
-      rewrite (mem_byte_true dotc b' (H base0 b' (or_introl eq_refl) Es)). exact Hrec.
+      destruct (mem_byte dotc b') eqn:Em.
+      * exact Hrec.
+      * destruct b' as [|c b'].
+        -- exact Hrec.
+        -- exfalso. apply mem_byte_false in Em.
+           destruct (H base0 (c :: b') (or_introl eq_refl) Es) as [Hi | He].
+           ++ exact (Em Hi).
+           ++ discriminate He.
     + exact Hrec.
 Qed.
+
+(* the converse of match_bucket_none, so the hypothesis above is exactly "no match" *)
+Lemma match_bucket_none_inv bases host :
+  match_bucket bases host = None ->
+  forall base b, In base bases -> host = b ++ dotc :: trim dotc base -> In dotc b \/ b = [].
+Proof.
+  intros Hn base b Hin Hh.
+  destruct (mem_byte dotc b) eqn:Em.
+  - left. destruct (in_dec N.eq_dec dotc b) as [Hi | Hni]; [exact Hi|].
+    apply mem_byte_false in Hni. rewrite Hni in Em. discriminate.
+  - apply mem_byte_false in Em.
+    destruct b as [|c b]; [right; reflexivity|].
+    exfalso.
+    assert (Hne : c :: b <> []) by discriminate.
+    pose proof (match_bucket_complete bases base (c :: b) Em Hne Hin) as Hm.
+    rewrite <- Hh, Hn in Hm. discriminate.
+Qed.
+
+(* the earlier, stronger-hypothesis form: every candidate prefix has a '.' *)
+Lemma match_bucket_none_dotted bases host :
+  (forall base b, In base bases -> host = b ++ dotc :: trim dotc base -> In dotc b) ->
+  match_bucket bases host = None.
+Proof.
+  intros H. apply match_bucket_none. intros base b Hin Hh. left. exact (H base b Hin Hh).
+Qed.
+
+(* a host that starts with '.' never yields a bucket, whatever the bases are: the prefix left in
+   front of any base is empty or itself starts with '.' *)
+Lemma match_bucket_leading_dot bases s : match_bucket bases (dotc :: s) = None.
+Proof.
+  apply match_bucket_none. intros base b _ Hh.
+  destruct b as [|c b].
+  - right. reflexivity.
+  - left. cbn [app] in Hh. injection Hh as Hc _. left. symmetry. exact Hc.
+Qed.
+
+(* the empty-label host ".<base>": no bucket, for every configured list of bases (no side
+   condition about the other bases is needed) *)
+Corollary match_bucket_empty_label bases base :
+  match_bucket bases (dotc :: trim dotc base) = None.
+Proof. apply match_bucket_leading_dot. Qed.
 
 (* WithHostBucketBase *)
 Theorem host_base_eq_path bases base bucket rest :
@@ -266,27 +323,49 @@ Theorem host_base_eq_path bases base bucket rest :
   route (HostBases bases) (bucket ++ dotc :: trim dotc base) (slash :: rest)
   = route HostNone [] (slash :: bucket ++ slash :: rest).
 Proof.
-  intros [_ [Hd _]] Hin. unfold route.
-  pose proof (match_bucket_complete bases base bucket Hd Hin) as Hm.
+  intros [Hne [Hd _]] Hin. unfold route.
+  pose proof (match_bucket_complete bases base bucket Hd Hne Hin) as Hm.
   destruct bases as [|base0 bases].
   - destruct Hin.
   - cbn [effective_path]. rewrite Hm. apply split_path_rewrite.
 Qed.
 
-(* hosts that are not "<single label>.<base>" fall back to path-style, path unchanged *)
-Theorem host_base_fallback bases host path :
-  (forall base b, In base bases -> host = b ++ dotc :: trim dotc base -> In dotc b) ->
+Lemma route_no_match bases host path :
+  match_bucket bases host = None ->
   route (HostBases bases) host path = route HostNone host path.
 Proof.
-  intros H. unfold route.
-  pose proof (match_bucket_none bases host H) as Hm.
+  intros Hm. unfold route.
   destruct bases as [|base0 bases].
   - reflexivity.
   - cbn [effective_path]. rewrite Hm. reflexivity.
 Qed.
 
+(* hosts that are not "<single non-empty label>.<base>" fall back to path-style, path unchanged *)
+Theorem host_base_fallback bases host path :
+  (forall base b, In base bases -> host = b ++ dotc :: trim dotc base -> In dotc b \/ b = []) ->
+  route (HostBases bases) host path = route HostNone host path.
+Proof.
+  intros H. apply route_no_match. exact (match_bucket_none bases host H).
+Qed.
+
+(* the earlier form of the fallback theorem (every candidate prefix has a '.') *)
+Corollary host_base_fallback_dotted bases host path :
+  (forall base b, In base bases -> host = b ++ dotc :: trim dotc base -> In dotc b) ->
+  route (HostBases bases) host path = route HostNone host path.
+Proof.
+  intros H. apply route_no_match. exact (match_bucket_none_dotted bases host H).
+Qed.
+
+(* the empty-label host ".<base>" is served path-style, path unchanged, whatever else is configured *)
+Theorem host_base_empty_label bases base path :
+  route (HostBases bases) (dotc :: trim dotc base) path
+  = route HostNone (dotc :: trim dotc base) path.
+Proof. apply route_no_match. apply match_bucket_empty_label. Qed.
+
 Print Assumptions host_bucket_eq_path.
 Print Assumptions host_base_eq_path.
 Print Assumptions match_bucket_sound.
+Print Assumptions match_bucket_none_inv.
 Print Assumptions host_base_fallback.
+Print Assumptions host_base_empty_label.
 Print Assumptions extra_slashes.
